@@ -390,7 +390,7 @@ def mirror_ok(tok, ast):
 S5_SKELETONS = {
     'table-short-row': '| a | b | c |\n|---|:-:|--:|\n| {} | 2 |\n', 'table-long-row': '| a |\n|---|\n| {} | 2 | 3 |\n', 'table-short-header': '| {} |\n|---|---|\n| 1 | 2 |\n',
     'setext-in-item': '- {}\n  ===\n- b\n', 'code-in-quote': '> ```\n> {}\n> ```\n>\n>     x\n', 'html-block': '<div>\n{}\n</div>\n\np <b>i</b>\n',
-    'nested': '1. a\n   - {}\n     > q\n2. c\n', 'inline-mix': '*a **{}** `c`* [l](/u "t") ![i](/s) <http://x.y> ~~d~~ \\* e  \nf\n',
+    'nested': '1. a\n   - {}\n     > q\n2. c\n', 'inline-emph': '*a **{}** `c`* ~~d~~\n', 'inline-links': '[{}](/u "t") ![i](/s) <http://x.y>\n', 'inline-breaks': 'a \\* {}  \nf\ng\n',
     'empty-containers': '>\n\n-\n\n#\n\n{}\n', 'ref-links': '[{}][l] [l][] [l]\n\n[l]: /u "t"\n',
 }
 
